@@ -43,7 +43,7 @@ def dispatch (prop : String) : Option (String → String × String) :=
   | "C07o" => some C07o.runOracle
   | "C18o" => some C18.runOracle
   | "LALL" => some (Lay.run "LAY")
-  | "C12" => some C12.run
+  | "C12" => some fun line => if line.startsWith "KAN" then Kan.run "KAN" line else C12.run line   -- [seq]
   | "C16" => some C16.run
   | "C20" => some C20.run -- C20
   | "C15" => some C15.run
